@@ -1428,6 +1428,91 @@ fn round_hogged(seed: u64, hb: &Heartbeat, tot: &Mutex<Tot>, prop: &str) {
 }
 
 // ---------------------------------------------------------------------------------------------
+// reentrant: the process's tracing subscriber itself uses rsactor (a log-collector actor fed by a non-blocking tell from
+// inside `event()`), and that collector has already ended. A failing ask/tell records a dead letter, which calls the
+// subscriber, whose own tell fails and records another dead letter: the error path is re-entered on the same thread.
+// "Every ask completes ... returns an Err rather than waiting forever" (C03) also when the framework calls foreign code.
+// ---------------------------------------------------------------------------------------------
+fn round_reentrant(seed: u64, tot: &Mutex<Tot>, prop: &str) {
+    use ab::*;
+    use futures::FutureExt;
+    let (tx, rx) = std::sync::mpsc::channel::<Vec<String>>();
+    std::thread::spawn(move || {
+        let mut r = Rng::new(seed);
+        let rt = if r.chance(50) {
+            tokio::runtime::Builder::new_current_thread().enable_time().build().unwrap()
+        } else {
+            tokio::runtime::Builder::new_multi_thread().worker_threads(2).enable_time().build().unwrap()
+        };
+        let variant = r.below(3);
+        let bad = rt.block_on(async {
+            let mut bad = vec![];
+            let (sink, sjh) = rsactor::spawn::<A>(Args { handled: Arc::new(AtomicU64::new(0)), start_ms: 0, ticks: false });
+            let _ = sink.stop().await;
+            let _ = sjh.await;
+            let sink2 = sink.clone();
+            *DL_HOOK.lock().unwrap() = Some(Arc::new(move || {
+                let _ = sink2.tell(Work(0, 0)).now_or_never();
+            }));
+            let (a, jh) = rsactor::spawn::<A>(Args { handled: Arc::new(AtomicU64::new(0)), start_ms: 0, ticks: false });
+            if variant == 0 {
+                let _ = a.stop().await;
+            } else {
+                let _ = a.kill();
+            }
+            let _ = jh.await;
+            // each failing call must come back with an error (the calls themselves are made while the hook is installed)
+            match variant {
+                0 => {
+                    if !matches!(a.ask(Work(0, 0)).await, Err(rsactor::Error::Send { .. })) {
+                        bad.push("ask on a stopped actor did not return Err(Send)".to_string());
+                    }
+                }
+                1 => {
+                    if a.tell(Work(0, 0)).await.is_ok() {
+                        bad.push("tell on a killed actor returned Ok".to_string());
+                    }
+                }
+                _ => {
+                    if !matches!(a.ask_with_timeout(Work(0, 0), Duration::from_millis(50)).await, Err(rsactor::Error::Send { .. })) {
+                        bad.push("ask_with_timeout on a killed actor did not return Err(Send)".to_string());
+                    }
+                }
+            }
+            // and the process must still be able to record dead letters afterwards
+            if a.tell(Work(0, 0)).await.is_ok() {
+                bad.push("second tell on a dead actor returned Ok".to_string());
+            }
+            *DL_HOOK.lock().unwrap() = None;
+            bad
+        });
+        let _ = tx.send(bad);
+    });
+    let got = rx.recv_timeout(Duration::from_secs(15));
+    *DL_HOOK.lock().unwrap_or_else(|e| e.into_inner()) = None;
+    let mut t = tot.lock().unwrap();
+    t.rounds += 1;
+    t.hashes.insert(seed % 6);
+    *t.obl.entry("C03.complete").or_default() += 1;
+    *t.nontrivial.entry("C03".into()).or_default() += 1;
+    *t.nontrivial.entry("C13".into()).or_default() += 1;
+    let mut v = vec![];
+    match got {
+        Err(_) => v.push(("C03.complete", "[reentrant-subscriber] a send to a dead actor, made while the tracing subscriber itself sends to another dead actor from inside event(), did not return within 15 s".to_string())),
+        Ok(bad) => {
+            for b in bad {
+                v.push(("C03.after_end", format!("[reentrant-subscriber] {b}")));
+            }
+        }
+    }
+    for (c, m) in v {
+        if prop == "all" || prop == "C03" || prop == "C13" || prop == "C12" {
+            t.viol.push((c.into(), m, seed, "reentrant".into()));
+        }
+    }
+}
+
+// ---------------------------------------------------------------------------------------------
 // abort: the actor's JoinHandle is resolved by `JoinHandle::abort()` while strong references exist.
 // Whatever made the handle resolve, "is_alive() is false once its JoinHandle has resolved, after which
 // every send fails" (C11) and "every ask still pending on it and every later ask returns an Err" (C03).
@@ -2152,6 +2237,16 @@ pub fn cmd_mt(a: &Args) -> i32 {
                     }
                 }
             }
+            "reentrant" => {
+                let mut n = 0u64;
+                while tp.elapsed() < per_profile {
+                    n += 1;
+                    round_reentrant(mix(base, ((pi as u64) << 56) ^ n), &tot, &prop);
+                    if !tot.lock().unwrap().viol.is_empty() {
+                        break;
+                    }
+                }
+            }
             "abort" => {
                 let mut n = 0u64;
                 while tp.elapsed() < per_profile {
@@ -2218,7 +2313,7 @@ pub fn cmd_mt(a: &Args) -> i32 {
     #[cfg(feature = "f_testutils")]
     {
         let d = rsactor::dead_letter_count() - dl0;
-        if !tainted.load(Ordering::Relaxed) && profiles.iter().all(|p| p != "spawnstorm" && p != "tightrace" && p != "starve" && p != "mutualask") {
+        if !tainted.load(Ordering::Relaxed) && profiles.iter().all(|p| p != "spawnstorm" && p != "tightrace" && p != "starve" && p != "mutualask" && p != "abort" && p != "reentrant") {
             *t.obl.entry("C13.counter").or_default() += 1;
             t.extra.insert("dead_letter_count_delta".into(), d);
             let fl = t.failures;
